@@ -65,11 +65,23 @@ def POST_INSTALL():
     from symx import shim
     shim.NPFacade.unique = _facade_unique
     shim.NPFacade.mean = _facade_mean
+    # SymReal has no `%`: model python's float modulo for a concrete positive modulus (x - m*floor(x/m), linear with an integer part);
+    # a symbolic modulus would be non-linear mixed integer/real arithmetic -> Unsupported (the case fails loudly)
+    if not hasattr(V.SymReal, "__mod__"):
+        def _mod(self, o):
+            if isinstance(o, np.ndarray):
+                return NotImplemented
+            if V._is_num(o) and float(o) > 0:
+                m = V.rval(o)
+                return V.SymReal(self.t - m * z3.ToReal(z3.ToInt(self.t / m)))
+            raise V.Unsupported("symbolic %% with a symbolic or non-positive modulus")
+        V.SymReal.__mod__ = _mod
 
 
 # ---------------------------------------------------------------------------------------------------------------
 # ordering of symbolic scalars: syntactic decision on linear forms where possible, otherwise a fork decided by z3
 
+_EXACT = [True]     # False in the concrete-side-length variant: concrete float parts are rounded, coincidence / equality up to TOL
 _POS = set()         # names of solver variables assumed > 0 on the current path (set by the case functions)
 _LIN_MEMO = {}
 
@@ -163,6 +175,8 @@ def _sign_syntactic(a, b):
     c = la[1] - lb[1]
     coeffs = [(n, v) for n, v in d.items() if v != 0]
     if not coeffs:
+        if not _EXACT[0] and abs(c) <= TOL:
+            return 0            # concrete-side variant: float-rounded concrete parts, coincidence up to TOL
         return (c > 0) - (c < 0)
     if all(n in _POS for n, _ in coeffs):
         if all(v > 0 for _, v in coeffs) and c >= 0:
@@ -184,6 +198,8 @@ def _audit(a, b, s):
     if c is None:
         return
     claim = (a < b) if s < 0 else ((a == b) if s == 0 else (a > b))
+    if s == 0 and not _EXACT[0]:
+        claim = (a - b <= TOL) & (b - a <= TOL)
     r, _ = c._check(z3.Not(claim.t))
     if r != "unsat":
         c.stats.errors.append("audit: syntactic ordering decision not entailed (%s): %s vs %s" % (r, a, b))
@@ -401,6 +417,8 @@ def _implies(a, b):
 
 def _eq_scalar(a, b):
     if is_sym(a) or is_sym(b):
+        if not _EXACT[0]:
+            return (a - b <= TOL) & (b - a <= TOL)
         return a == b
     a, b = float(a), float(b)
     return abs(a - b) <= TOL * (1.0 + max(abs(a), abs(b)))
@@ -591,16 +609,21 @@ def body_coord(inp, subsets="few"):
     return A, E
 
 
-def case_coord(ctx, sets, subsets="few"):
+def case_coord(ctx, sets, subsets="few", side=None):
     k = V.integer("k")
     ctx.assume(z3.And(k.t >= 0, k.t < len(sets)))
     kk = ctx.concretize_int(k.t)
     coords, flipped = sets[kk]
     ctx.set_case(set_index=kk)
-    s, xo, yo = V.real("side"), V.real("x_offset"), V.real("y_offset")
-    ctx.assume(s.t > 0)
+    xo, yo = V.real("x_offset"), V.real("y_offset")
     _POS.clear()
-    _POS.add("side")
+    if side is None:
+        s = V.real("side")
+        ctx.assume(s.t > 0)
+        _POS.add("side")
+    else:
+        _EXACT[0] = False
+        s = float(side)         # variant: concrete (dyadic) side length, offsets symbolic - everything stays linear even through % / floor
     inputs = {"coords": np.array(coords, dtype=int).reshape(-1, 2), "flipped": bool(flipped), "side": s, "x_offset": xo, "y_offset": yo,
               "new_vertices": V.real_array("w", (3 * len(coords), 2))}
     _run(ctx, body_coord, inputs, {"subsets": subsets}, validate_every=4)
@@ -921,12 +944,14 @@ def _run(ctx, body, inputs, kwargs, validate_every=1):
     actual, expected = body(inputs, **kwargs)
     lin = [k for k in expected if "NL." not in k]
     nl = [k for k in expected if "NL." in k]
-    hx.check_all(ctx, actual, expected, only=lin)
+    tol = None if _EXACT[0] else TOL
+    _EXACT[0] = True
+    hx.check_all(ctx, actual, expected, only=lin, tol=tol)
     if nl:
         old = ctx.logic
         ctx.logic = "QF_NRA"
         try:
-            hx.check_all(ctx, actual, expected, only=nl)
+            hx.check_all(ctx, actual, expected, only=nl, tol=tol)
         finally:
             ctx.logic = old
     if sum(1 for c in ctx.stats.candidates if c.known is None) >= ctx.max_candidates:
@@ -1027,6 +1052,10 @@ def cases(tier):
     chunk = 12
     for i in range(0, len(singles), chunk):
         out.append(("case_coord", {"sets": singles[i:i + chunk], "subsets": "all"}))
+    # variant: concrete dyadic side length with symbolic offsets (incl. the second up-sample level with half the side)
+    cs = [([[0, 0]], False), ([[1, 0]], False), ([[0, 1]], True), ([[1, 1]], True), ([[0, 0], [1, 0]], False), ([[1, 0], [0, 1]], True)]
+    for side in ((1.0, 0.5) if tier == "quick" else (1.0, 0.5, 4.0, 0.375)):
+        out.append(("case_coord", {"sets": cs, "subsets": "all", "side": side}))
     out.append(("case_limits", {"limits": [-0.5, 0.5, -0.5, 0.5], "lo": 0.75, "hi": 1.5}))
     if tier != "quick":
         out.append(("case_limits", {"limits": [0.0, 1.0, 0.0, 1.0], "lo": 0.5, "hi": 2.0}))
@@ -1102,6 +1131,8 @@ BOUNDS = {
              "on fully read lattice sets, their vertex arrays, the symbolic triangle, the (concrete, read) mesh and a read concrete triangle, "
              "followed by with_vertices(integer lattice). Integer-dtype vertex arrays (values ENUMERATED by the explorer, no real-valued variable): "
              "one triangle with all six coordinates in [-1,1] (729 sets) and 16 larger odd-sum sets, two triangles sharing an edge (81 sets). "
+             "Variant with concrete dyadic side length (1, 0.5; thorough also 4, 0.375) and symbolic offsets on 6 small sets incl. the second "
+             "up-sample level (concrete float parts are rounded, so coincidence / equality there is up to 1e-9). "
              "Lattice sets with a coordinate listed more than once (2-6 entries) in the set and containment clauses; containment also at side "
              "lengths 2^-21, 2^-34 and 2^12 (the inside test is scale-free: barycentric coordinates > 1e-9) and with the refinement step "
              "for_indexes(containing_indices(shape)) == the triangles at the reported positions.",
@@ -1129,6 +1160,7 @@ STUBS = [
     "comparison either decided from the linear forms under the positivity assumption (side length / scale > 0) or forked and decided by z3; "
     "concrete arrays go to the real np.unique",
     "np.mean on proxies: sum / count",
+    "SymReal % concrete positive modulus: x - m*floor(x/m) (python float modulo); symbolic modulus is Unsupported",
     "ordering shortcut: a comparison whose difference is a linear form c0 + sum c_i*v_i over variables assumed > 0 with all c_i, c0 of one sign "
     "is decided without the solver; every 64th such decision is re-decided by z3 (disagreement = harness error)",
     "HEIGHT_FACTOR = 3**0.5/2 enters as the exact rational value of its float64 (all checked identities are polynomial identities that hold for any value of it)",
